@@ -135,6 +135,54 @@ var smlFrame = regexp.MustCompile(`go-secs/v2/sml\.\(\*Parser\)\.(\w+)`)
 // deep=true renders only the message count and S/F/W (the item tree of a deep-nesting input is
 // as large as the input and is not what that case is about).
 func outcome(msgs []*hsms.DataMessage, err error, shallow bool) string {
+	s, _ := outcomeD(msgs, err, shallow)
+	return s
+}
+
+// listDepth is the number of nested LIST levels of the deepest item of the tree (a leaf or the
+// empty item: 0; <L>: 1; <L <L>>: 2). Iterative: the tree may be deeper than any stack.
+func listDepth(it secs2.Item) int {
+	type fr struct {
+		it secs2.Item
+		d  int
+	}
+	max := 0
+	st := []fr{{it, 0}}
+	for len(st) > 0 {
+		f := st[len(st)-1]
+		st = st[:len(st)-1]
+		if f.it == nil || !f.it.IsList() {
+			continue
+		}
+		d := f.d + 1
+		if d > max {
+			max = d
+		}
+		cs, _ := f.it.ToList()
+		for _, c := range cs {
+			st = append(st, fr{c, d})
+		}
+	}
+	return max
+}
+
+// outcomeD is outcome plus the deepest list nesting among the returned messages.
+func outcomeD(msgs []*hsms.DataMessage, err error, shallow bool) (string, int) {
+	depth := 0
+	for _, m := range msgs {
+		if m == nil {
+			continue
+		}
+		if it, e := m.Item(); e == nil {
+			if d := listDepth(it); d > depth {
+				depth = d
+			}
+		}
+	}
+	return outcomeS(msgs, err, shallow), depth
+}
+
+func outcomeS(msgs []*hsms.DataMessage, err error, shallow bool) string {
 	if err != nil {
 		var pe *sml.ParseError
 		switch {
@@ -165,7 +213,7 @@ func outcome(msgs []*hsms.DataMessage, err error, shallow bool) string {
 // call runs one entry point on one input with a parser of the requested mode. A recoverable
 // panic becomes the outcome "PANIC <function>"; the function is the innermost frame of package
 // sml on the panicking stack (an observable of where it happened, not message text).
-func call(p *sml.Parser, strict bool, entry byte, input string, shallow bool) (out string) {
+func call(p *sml.Parser, strict bool, entry byte, input string, shallow bool) (out string, depth int) {
 	defer func() {
 		if r := recover(); r != nil {
 			fn := "?"
@@ -184,33 +232,34 @@ func call(p *sml.Parser, strict bool, entry byte, input string, shallow bool) (o
 				}
 			}
 			out = "PANIC " + kind + " " + fn
+			depth = 0
 		}
 	}()
 	switch entry {
 	case 'G':
 		if strict {
 			ms, err := sml.ParseStrict(input)
-			return outcome(ms, err, shallow)
+			return outcomeD(ms, err, shallow)
 		}
 		ms, err := sml.Parse(input)
-		return outcome(ms, err, shallow)
+		return outcomeD(ms, err, shallow)
 	case 'P':
 		ms, err := p.Parse(input)
-		return outcome(ms, err, shallow)
+		return outcomeD(ms, err, shallow)
 	case 'M':
 		m, err := p.ParseMessage(input)
 		if err != nil {
-			return outcome(nil, err, shallow)
+			return outcomeD(nil, err, shallow)
 		}
-		return outcome([]*hsms.DataMessage{m}, nil, shallow)
+		return outcomeD([]*hsms.DataMessage{m}, nil, shallow)
 	case 'H':
 		m, err := p.ParseHeader(input)
 		if err != nil {
-			return outcome(nil, err, shallow)
+			return outcomeD(nil, err, shallow)
 		}
-		return outcome([]*hsms.DataMessage{m}, nil, shallow)
+		return outcomeD([]*hsms.DataMessage{m}, nil, shallow)
 	}
-	return "BADENTRY"
+	return "BADENTRY", 0
 }
 
 // heapAllocs is the cumulative number of bytes allocated on the heap (runtime.MemStats.TotalAlloc;
@@ -222,7 +271,7 @@ func heapAllocs() uint64 {
 }
 
 // runChild processes a batch: lines "<strict 0|1> <entry> <flags> <hex input>"; flags: s = shallow.
-// Result file lines: "B <i>" before, "R <i> <allocBytes> <nanos> <reuseSame 0|1> <re-measurements> <outcome>" after.
+// Result file lines: "B <i>" before, "R <i> <allocBytes> <nanos> <reuseSame 0|1> <re-measurements> <deepest list nesting returned> <outcome>" after.
 func runChild(batch, res string, maxStack int) {
 	if maxStack > 0 {
 		debug.SetMaxStack(maxStack)
@@ -248,8 +297,8 @@ func runChild(batch, res string, maxStack int) {
 	// the runtime's GC workers (first GC cycle), happen here, not inside a measured call
 	for _, st := range []bool{false, true} {
 		for _, e := range []byte{'G', 'P', 'M', 'H'} {
-			call(reused[st], st, e, "S1F1 W\n<L <A \"a\"> <U1 1> <F4 1.5> <BOOLEAN T> <B 0x01>>\n.", false)
-			call(reused[st], st, e, "S1F1 <X>.", false)
+			_, _ = call(reused[st], st, e, "S1F1 W\n<L <A \"a\"> <U1 1> <F4 1.5> <BOOLEAN T> <B 0x01>>\n.", false)
+			_, _ = call(reused[st], st, e, "S1F1 <X>.", false)
 		}
 	}
 	runtime.GC()
@@ -269,7 +318,7 @@ func runChild(batch, res string, maxStack int) {
 		fresh := sml.NewParser(sml.WithParserStrictMode(strict))
 		a0 := heapAllocs()
 		t0 := time.Now()
-		out := call(fresh, strict, entry, input, shallow)
+		out, maxDepth := call(fresh, strict, entry, input, shallow)
 		dt := time.Since(t0)
 		a1 := heapAllocs()
 		alloc := a1 - a0
@@ -287,7 +336,7 @@ func runChild(batch, res string, maxStack int) {
 				runtime.GC()
 				p2 := sml.NewParser(sml.WithParserStrictMode(strict))
 				b0 := heapAllocs()
-				call(p2, strict, entry, input, shallow)
+				_, _ = call(p2, strict, entry, input, shallow)
 				b1 := heapAllocs()
 				remeasured++
 				if b1-b0 < alloc {
@@ -300,11 +349,11 @@ func runChild(batch, res string, maxStack int) {
 		}
 		same := 1
 		if !strings.HasPrefix(out, "PANIC") && entry != 'G' {
-			if out2 := call(reused[strict], strict, entry, input, shallow); out2 != out {
+			if out2, _ := call(reused[strict], strict, entry, input, shallow); out2 != out {
 				same = 0
 			}
 		}
-		fmt.Fprintf(w, "R %d %d %d %d %d %s\n", i, alloc, dt.Nanoseconds(), same, remeasured, out)
+		fmt.Fprintf(w, "R %d %d %d %d %d %d %s\n", i, alloc, dt.Nanoseconds(), same, remeasured, maxDepth, out)
 		w.Flush()
 		i++
 	}
